@@ -153,7 +153,10 @@ func decodeRA(m []byte) (ra oRA, ok bool) {
 	return ra, true
 }
 
-func oracleRA(r *lib.Run, msg []byte, rt icmp_spoofer.Router) {
+func oracleRA(r *lib.Run, msg []byte, rt icmp_spoofer.Router) { oracleRAfrom(r, msg, rt, lib.RouterMAC, "") }
+
+// oracleRAfrom: ethSrc nil = the record may have been created by an earlier RA (MAC not checked).
+func oracleRAfrom(r *lib.Run, msg []byte, rt icmp_spoofer.Router, ethSrc []byte, where string) {
 	ra, ok := decodeRA(msg)
 	if !ok {
 		r.Stat("oracle.skipped-malformed", 1)
@@ -161,7 +164,12 @@ func oracleRA(r *lib.Run, msg []byte, rt icmp_spoofer.Router) {
 	}
 	r.Stat("oracle.checked", 1)
 	replay := "ra ret " + hx(msg)
-	bad := func(key, what string) { r.Viol(key, what+" (RA "+hx(msg)+")", replay) }
+	bad := func(key, what string) {
+		if where != "" && strings.HasSuffix(key, "-multiple") {
+			return // recorded once by the single-RA check
+		}
+		r.Viol(key, what+" (RA "+hx(msg)+") "+where, replay)
+	}
 	sec := func(d time.Duration) uint32 { return uint32(d / time.Second) }
 	if rt.ManagedFlag != ra.managed || rt.OtherCondigFlag != ra.other || int(rt.Preference) != ra.prf || int(rt.CurHopLimit) != ra.hop ||
 		rt.DefaultLifetime != time.Duration(ra.life)*time.Second || uint32(rt.ReacheableTime) != ra.reach || uint32(rt.RetransTimer) != ra.retrans {
@@ -172,9 +180,9 @@ func oracleRA(r *lib.Run, msg []byte, rt icmp_spoofer.Router) {
 	}
 	wantMAC := ra.slla
 	if len(wantMAC) != 6 {
-		wantMAC = lib.RouterMAC
+		wantMAC = ethSrc
 	}
-	if !bytes.Equal(rt.Addr.MAC, wantMAC) {
+	if ethSrc != nil && !bytes.Equal(rt.Addr.MAC, wantMAC) {
 		bad("oracle-mac", "router MAC differs: "+hx(rt.Addr.MAC)+" vs "+hx(wantMAC))
 	}
 	if rt.MTU != ra.mtu || uint32(rt.Options.MTU) != ra.mtu {
